@@ -46,23 +46,23 @@ func (p *NegotiationParams) Validate() error {
 	case "":
 		// ok
 	case compress.TypePerMessage, compress.TypeContextTakeOver:
-		if p.CompressLevel != nil {
-			if *p.CompressLevel < 0 || *p.CompressLevel > 9 {
-				return errors.Errorf("unknown compress level %d", p.CompressLevel)
-			}
-		} else {
+		if p.CompressLevel == nil {
 			compLevel := DefaultCompressionLevel
 			p.CompressLevel = &compLevel
-		}
-		if p.CompressWindowBits != nil {
-			if *p.CompressWindowBits < 0 || *p.CompressWindowBits > 32 {
-				return errors.Errorf("invalid compress window bits %d", p.CompressWindowBits)
-			}
 		}
 	default:
 		return errors.Errorf("unknown compress type %q", p.Compress)
 	}
-
+	if p.CompressLevel != nil {
+		if *p.CompressLevel < 0 || *p.CompressLevel > 9 {
+			return errors.Errorf("unknown compress level %d", *p.CompressLevel)
+		}
+	}
+	if p.CompressWindowBits != nil {
+		if *p.CompressWindowBits < 0 || *p.CompressWindowBits > 32 {
+			return errors.Errorf("invalid compress window bits %d", *p.CompressWindowBits)
+		}
+	}
 	return nil
 }
 
